@@ -73,6 +73,12 @@ def fuse_program(rng, tid, sym, kind, cfg=None, dtype="float64", maxrank=4):
         steps.append({"op": "transpose", "in": [cur], "out": ["back"], "args": {"axes": inverse(perm)}})
         steps.append(rel("blocks" if kind == "abelian" else "same", "C05.roundtrip", "x", "back"))
         steps.append({"op": "unfuse_all", "in": ["f"], "out": ["ua"], "args": {}})
+        # the same round trip on numbers 2**-40 times smaller (scaling by a power of two is exact)
+        steps.append({"op": "scale_pow2", "in": ["x"], "out": ["xt"], "args": {"e": -40}})
+        steps.append({"op": "fuse", "in": ["xt"], "out": ["ft"], "args": {"groups": groups}})
+        steps.append({"op": "unfuse_all", "in": ["ft"], "out": ["uat"], "args": {}})
+        steps.append({"op": "scale_pow2", "in": ["uat"], "out": ["uats"], "args": {"e": 40}})
+        steps.append(rel("array_equal" if kind == "abelian" else "same", "C05.roundtrip.tiny_numbers", "ua", "uats"))
         steps.append(rel("array_equal" if kind == "abelian" else "same", "C05.unfuse_all", cur, "ua"))
         # second level: fuse a group containing the already fused axis
         frank = len(perm) - sum(len(g) - 1 for g in groups)
